@@ -20,7 +20,7 @@ def classify_crash(cr):
 
 SPEC = {
     'id': 'C12',
-    'lean_modules': ['AITB.Props.C12Spec', 'AITB.Props.C12Interp', 'AITB.Props.C12InterpOpt', 'AITB.Props.C12CheckSound', 'AITB.Props.C12PruneStrong', 'AITB.Props.C12InterpValue'],
+    'lean_modules': ['AITB.Props.C12Spec', 'AITB.Props.C12Interp', 'AITB.Props.C12InterpOpt', 'AITB.Props.C12CheckSound', 'AITB.Props.C12PruneStrong', 'AITB.Props.C12InterpValue', 'AITB.Props.C12UsefulPoints', 'AITB.Props.C12Strict', 'AITB.Props.C12LpCert', 'AITB.Props.C12SawGuard'],
     'theorems': [
         # headline statements (library tolerances / exact reading)
         'AITB.Prune.extractDominated_spec', 'AITB.Prune.extractDominated_exact_spec',
@@ -56,6 +56,17 @@ SPEC = {
         'AITB.Interp.lpInterp_variant_agree_full_support', 'AITB.Interp.lpInterp_asFound_slot_witness', 'AITB.Interp.lpInterp_repaired_slot_witness',
         'AITB.Interp.lpInterp_asFound_nan_witness', 'AITB.Interp.lpInterp_repaired_nan_witness', 'AITB.Interp.lpinterp_weights',
         'AITB.Interp.sawtooth_bounds', 'AITB.Interp.lpinterp_optimal', 'AITB.Interp.lpinterp_optimal_needs_mass',
+        # round 3: extractBestUsefulPoints contract, what the lexicographic tie-break guarantees, LP optimality from certificates
+        'AITB.UsefulPoints.bup_perm', 'AITB.UsefulPoints.bup_keys_nodup', 'AITB.UsefulPoints.bup_length_le', 'AITB.UsefulPoints.bup_complete',
+        'AITB.UsefulPoints.bup_kept_mem', 'AITB.UsefulPoints.bup_kept_best',
+        'AITB.Prune.veccmpGt_irrefl', 'AITB.Prune.veccmpGt_trans', 'AITB.Prune.veccmpGt_asymm', 'AITB.Prune.veccmpGt_total',
+        'AITB.Prune.findBest_lexmax', 'AITB.Prune.lexmax_strict_witness', 'AITB.Prune.findBest_strict_witness', 'AITB.Prune.corner_strict_witness',
+        'AITB.Prune.cornersLoop_strict', 'AITB.Prune.prunerLoop_strict', 'AITB.Prune.pruner_witness_strict',
+        'AITB.Prune.noTie_selects', 'AITB.Prune.tie_selects', 'AITB.Prune.noTie_covered', 'AITB.Prune.noTie_not_strict', 'AITB.Prune.tie_strict',
+        'AITB.Interp.lpPrimalFeasible_iff', 'AITB.Interp.lp_weak_duality', 'AITB.Interp.lpCertOK_eps_optimal', 'AITB.Interp.lpCertOK_optimal',
+        'AITB.Interp.certifiedLp_optimal', 'AITB.Interp.lpinterp_optimal_certified', 'AITB.Interp.lpinterp_optimal_eps', 'AITB.Interp.lpinterp_optimal_certified_eps',
+        'AITB.Interp.sawtoothG_false', 'AITB.Interp.sawtoothG_eq_sawtooth', 'AITB.Interp.sawtoothG_total', 'AITB.Interp.sawtoothG_weights', 'AITB.Interp.sawtoothG_bounds',
+        'AITB.Interp.sawtoothG_le_corner_bound', 'AITB.Interp.sawtoothG_empty_total',
         'AITB.Interp.sawtooth_value_variant_independent', 'AITB.Interp.lpInterp_value_tail_independent',
         'AITB.Interp.sawtooth_defined_of_nonempty', 'AITB.Interp.sawtooth_none_only_if_empty',
     ],
@@ -64,7 +75,7 @@ SPEC = {
     'timeout': {'quick': 420, 'thorough': 2400},
     'case_timeout': 60,
     'classify_crash': classify_crash,
-    'rule': '22 fixed witness/regression cases (18-21: exact corner ties in dimension 3-4, every input order), then 2500 (quick) / 12000 (thorough) seeded random cases: vector sets (dimension 1..6, up to 16 / 40 vectors; '
+    'rule': '24 fixed witness/regression cases (18-21: exact corner ties in dimension 3-4, every input order; 22: within-tolerance near-tie; 23: frozen lp_solve cycling input), then 2500 (quick) / 12000 (thorough) seeded random cases: vector sets (dimension 1..6, up to 16 / 40 vectors; '
             'duplicates, shifts straddling both tolerances, corner-only and face-tied vectors, midpoints, magnitudes 2^22) through dominates, findBestAt*, '
             'extractDominated, extractDominatedIncremental (raw and pre-pruned old part) and Pruner; point surfaces (dimension 1..5, 0..6/10 points, zero '
             'coordinates, coordinates of size 2^-21 / 2^-19, query equal to a stored point, corner queries, unhelpful points, magnitudes 2^20) through '
@@ -72,7 +83,7 @@ SPEC = {
     'modelled': ['include/AIToolbox/Utils/Polytope.hpp: dominates, findBestAtPoint, findBestAtSimplexCorner, extractBestAtPoint, extractBestAtSimplexCorners',
                  'include/AIToolbox/Utils/Prune.hpp: extractDominated, extractDominatedIncremental, Pruner::operator() (witness LP = oracle replayed from a recorded trace)',
                  'src/Utils/Polytope.cpp: LPInterpolation (LP = oracle read back from the returned weights), sawtoothInterpolation',
-                 'NOT modelled, clauses of the documentation checked on outputs only: extractBestUsefulPoints (Polytope.hpp)'],
+                 'include/AIToolbox/Utils/Polytope.hpp: extractBestUsefulPoints (AITB.Model.UsefulPoints, array reproduced slot for slot)'],
     'assumptions': ['lp_solve (through AIToolbox::LP / WitnessLP) is an oracle: its answers are checked per call by exact certificates, never trusted',
                     'IEEE rounding is outside the theorems; inputs are dyadic so that the differential comparison is exact, comparisons within 1e-12 of a tolerance threshold are skipped'],
     'trusted_base': ['tools/extract_c12.py (decides which reading of four statements of Polytope.cpp the model takes)'],
